@@ -114,7 +114,9 @@ class DataType:
                 return self
             return DataType(self.kind, nullable=True)
 
-        vtype = type(value)
+        # classify the value as infer_kind does (isinstance based), so that an instance of a
+        # subclass of a ladder type counts the same whether it comes first or later
+        vtype = infer_kind(value)
 
         # Case 2: Exact match
         if vtype is self.kind:
